@@ -483,7 +483,8 @@ func RaceSig(report string) (sig string, inVersity bool) {
 		for _, l := range strings.Split(b, "\n") {
 			l = strings.TrimSpace(l)
 			if strings.HasPrefix(l, "github.com/versity/versitygw/") {
-				if i := strings.IndexByte(l, '('); i > 0 {
+				// strip the argument list (the last parenthesis group), keep pointer receivers
+				if i := strings.LastIndexByte(l, '('); i > 0 {
 					l = l[:i]
 				}
 				if top == "" {
